@@ -57,14 +57,18 @@ def check(chk):
             tgt = node.ast if node.kind == 'stmt' else None
             if tgt is not None:
                 for n in walk_no_nested(tgt):
-                    if isinstance(n, ast.Call) and src(n.func) in want and src(n.func) not in c:
+                    if isinstance(n, ast.Call) and src(n.func) in want + ['host.set_down'] and src(n.func) not in c:
                         c = c + (src(n.func),)
         return c
     fl = Flow(g, (), step)
     bad = []
     for fa, c in fl.at(g.exit):
-        if fa.knows('self.is_shutdown') is True or fa.knows('connected') is True:
+        # a path that leaves before host.set_down() made no transition (cluster shut down, or the down signal is discounted because pools are still open)
+        if fa.knows('self.is_shutdown') is True or 'host.set_down' not in c:
+            if [x for x in c if x != 'host.set_down']:
+                bad.append(('a path that does not mark the host down notified %s' % list(c), fa))
             continue
+        c = tuple(x for x in c if x != 'host.set_down')
         early = fa.knows('host.is_currently_reconnecting()') is True or (fa.knows('was_up') is False and fa.knows('expect_host_to_be_down') is False)
         if early:
             if c:
